@@ -25,7 +25,13 @@ PROP = {
                   "folded into the client replica) is kept as a _fails witness on the model of the current code. Tied to the real swimos_downlink::DownlinkTask and the real hosted downlink channels "
                   "(both through public API) by differential execution one notification at a time (random legal/illegal "
                   "sequences with local writes, failures and reconnects, plus all sequences up to a small depth), and an "
-                  "observable-level monitor judges both implementations' callback logs against one reference fold.",
+                  "observable-level monitor judges both implementations' callback logs against one reference fold. "
+                  "The mode switch of the client tasks is part of the model (op drop-handle: the write handle is dropped and "
+                  "run_io continues in its separate Mode::Read loop; close-out: the value task's write fails): proved that for "
+                  "both flags, every op sequence and every drop point the state, the callbacks op by op and the termination "
+                  "are those of the run in which the handle is never dropped (C08_read_only_mode_same_fold); the harness drops "
+                  "the handle at random points of the random scripts (all four flag combinations) and exhaustively over a "
+                  "small alphabet (value: depth 5, map: depth 4); hosted channels: handle dropped / handle.stop().",
     "level_note": "tokio, the byte channels, the notification/map-message codecs and Recon parsing of i32 are exercised, not "
                   "modelled; keys and values are i32 (BTreeMap order = sort order of the hosted drop_or_take). The agent's "
                   "event loop around a hosted channel is replaced by the harness' loop (await_ready / next_event / run the "
